@@ -68,6 +68,7 @@ type rigConf struct {
 	Compression  int           `json:"compression"`
 	SlowRead     bool          `json:"slow_read,omitempty"` // source file reads take time (see storeWrap.GetOpener)
 	DeleteDelay  time.Duration `json:"delete_delay,omitempty"` // tag option delete-delay: a confirmed file is deleted only when its modification time is this old (then by a later scan)
+	ReverseParts bool          `json:"reverse_parts,omitempty"` // the receiver's partial listing reports the parts of each file in descending order (no order is promised)
 	DamageFirst  bool          `json:"damage_first,omitempty"` // the first transmission of every part arrives damaged (every file fails validation once)
 	// eligibility (C17)
 	IncludeHidden bool     `json:"include_hidden"`
@@ -986,6 +987,13 @@ func (r *rig) partials(gen int, real sts.Recover) ([]*sts.Partial, error) {
 	}
 	ps, err := real()
 	r.senderGone(gen)
+	if r.conf.ReverseParts {
+		for _, p := range ps {
+			for i, j := 0, len(p.Parts)-1; i < j; i, j = i+1, j-1 {
+				p.Parts[i], p.Parts[j] = p.Parts[j], p.Parts[i]
+			}
+		}
+	}
 	r.mu.Lock()
 	for _, p := range ps {
 		var rs [][2]int64
